@@ -9,13 +9,20 @@ Oracle (independent of the model, on the C output only):
   * twin cases `clean ; reset ; faulted`: a single bit error in any Hamming protected byte/triplet
     -> identical dumps and events; a double error in the address -> identical to the dropped packet;
   * containment on every case: every cached (pgno, subno) was transmitted, every cached LOP row is
-    blank, or one of the rows transmitted for that page (X/26 columns excepted), and has odd parity;
-    every TTX_PAGE event names a transmitted page.
+    blank, or one of the rows transmitted for that page under that packet number, and has odd parity;
+    only the cells (row, column) which X/26 data transmitted for that very page overrides are excepted
+    (lib/ttx03_util.py x26_cells, written from EN 300 706 12.3); every TTX_PAGE event names a
+    transmitted page;
+  * twin cases `fault-free ; reset ; with parity errors / uncorrectable page numbers` (kinds x26seq,
+    x26modes, ilvhdr): containment on both runs, and no page number cached only in the faulted run.
+Sender knowledge travels in one `note tx <digest> <json>` op; the digest binds it to the op lines
+it was written for (see `tag`).
 """
 import os, re, sys
 sys.path.insert(0, os.path.join(os.path.dirname(os.path.abspath(__file__)), "..", "lib"))
 import verif
 import ttx_util as T
+import ttx03_util as X
 
 hx = T.hx
 DATE = " Mon 01 Jan "
@@ -56,17 +63,57 @@ class Tx:
         self.rows = {}        # pgno -> set of tuple(40 bytes with parity) ever transmitted as rows 1..25
         self.mags = set()
         self.sec = 0
-        self.x26cols = {}     # pgno -> True when X/26 was sent (columns may get parity fixed)
+        self.x26cols = {}     # pgno -> columns addressed by X/26 character triplets (coarse exception, lossy channels)
+        self.rown = {}        # pgno -> packet number (0 = not recorded) -> set of payloads transmitted as that row
+        self.cells = {}       # pgno -> set of (row, column) overridden by X/26 data transmitted for this page
+        self.rowidx = []      # (index into pk, pgno, packet number) of the Level 1 rows sent by page()
 
-    def add(self, b, tag, pgno=None):
+    def add(self, b, tag, pgno=None, n=0):
         assert len(b) == 42
         self.pk.append((list(b), tag))
         if pgno is not None:
             # payload of a packet 1..25 sent while `pgno` is the page in progress
             self.rows.setdefault(pgno, set()).add(tuple(b[2:]))
+            self.rown.setdefault(pgno, {}).setdefault(n, set()).add(tuple(b[2:]))
+
+    def merge(self, t):
+        """knowledge of another (interleaved) transmission"""
+        self.sent_pages |= t.sent_pages
+        self.mags |= t.mags
+        for p, r in t.rows.items():
+            self.rows.setdefault(p, set()).update(r)
+        for p, c in t.x26cols.items():
+            self.x26cols.setdefault(p, set()).update(c)
+        for p, c in t.cells.items():
+            self.cells.setdefault(p, set()).update(c)
+        for p, d in t.rown.items():
+            for n, r in d.items():
+                self.rown.setdefault(p, {}).setdefault(n, set()).update(r)
+
+    def knowledge(self):
+        return {"sent": sorted([pg, sn] for pg, sn in self.sent_pages),
+                "rows": {"%x" % pg: {str(n): sorted(bytes(r).hex() for r in rs) for n, rs in d.items()}
+                         for pg, d in self.rown.items()},
+                "cells": {"%x" % pg: sorted([r, c] for r, c in cs) for pg, cs in self.cells.items()},
+                "cols": {"%x" % pg: sorted(cs) for pg, cs in self.x26cols.items()}}
+
+    @staticmethod
+    def from_knowledge(k):
+        tx = Tx()
+        tx.sent_pages = {(pg, sn) for pg, sn in k.get("sent", [])}
+        for pg, d in k.get("rows", {}).items():
+            for n, rs in d.items():
+                for h in rs:
+                    r = tuple(bytes.fromhex(h))
+                    tx.rows.setdefault(int(pg, 16), set()).add(r)
+                    tx.rown.setdefault(int(pg, 16), {}).setdefault(int(n), set()).add(r)
+        tx.cells = {int(pg, 16): {(r, c) for r, c in cs} for pg, cs in k.get("cells", {}).items()}
+        tx.x26cols = {int(pg, 16): set(cs) for pg, cs in k.get("cols", {}).items()}
+        tx.precise = True
+        return tx
 
     def page(self, rng, mag, page, subno=0, rows=None, serial=0, erase=0, x26=None, x27=False, x28=False,
-             flags=None, national=0, shuffle=False):
+             flags=None, national=0, shuffle=False, x26_first=False):
         pgno = (mag if mag else 8) * 256 + page
         mag8 = mag if mag else 8
         self.mags.add(mag8)
@@ -78,11 +125,14 @@ class Tx:
         if page != 0xFF:
             self.sent_pages.add((pgno, subno & 0x3F7F))
         body = []
+        self.rown.setdefault(pgno, {})
         for n, chars in (rows or {}).items():
             r = T.row(mag8, n, chars)
             self.rows.setdefault(pgno, set()).add(tuple(r[2:]))
-            body.append((r, "row"))
+            self.rown[pgno].setdefault(n, set()).add(tuple(r[2:]))
+            body.append((r, "row", n))
         if x26:
+            self.cells.setdefault(pgno, set()).update(X.x26_cells([t for trips in x26 for t in trips]))
             cols = self.x26cols.setdefault(pgno, set())
             for trips in x26:
                 for a, m, _ in trips:
@@ -101,8 +151,12 @@ class Tx:
                                        rowc=rng.randrange(32), bbg=rng.randrange(2), remap=rng.randrange(8)), "x28"))
         if shuffle:
             rng.shuffle(body)
-        for b, t in body:
-            self.add(b, t)
+        elif x26_first:
+            body = [e for e in body if e[1] == "x26"] + [e for e in body if e[1] != "x26"]
+        for e in body:
+            if e[1] == "row":
+                self.rowidx.append((len(self.pk), pgno, e[2]))      # where row e[2] of this page sits in the stream
+            self.add(e[0], e[1])
 
     def flush(self, serial=0):
         for m in sorted(self.mags):
@@ -197,7 +251,7 @@ def system_pages(rng):
         if page != 0xFF:
             tx.sent_pages.add((mag8 * 256 + page, subno))
         for n, nib in rows.items():
-            tx.add(T.h8row(mag8, n, nib), tag, mag8 * 256 + page)
+            tx.add(T.h8row(mag8, n, nib), tag, mag8 * 256 + page, n)
     typed = rng.random() < 0.6
     if typed:
         # a MIP declaring m05, m15, m3A as POP (0xE6) and m06, m16, m3B as DRCS (0xE5), terminated by the next header
@@ -247,7 +301,7 @@ def system_pages(rng):
                 desig = rng.randrange(16)
                 if n == 4:
                     desig &= ~1
-                tx.add(T.x28_0(mag8, n, desig, [rng.randrange(1 << 18) for _ in range(13)]), "poprow" if typed else "row?", mag8 * 256 + page)
+                tx.add(T.x28_0(mag8, n, desig, [rng.randrange(1 << 18) for _ in range(13)]), "poprow" if typed else "row?", mag8 * 256 + page, n)
             if rng.random() < 0.5:
                 tx.add(T.x28_0(mag8, 26, rng.randrange(16), [rng.randrange(1 << 18) for _ in range(13)]), "poprow" if typed else "row?")
         elif kind == "drcs":
@@ -262,7 +316,7 @@ def system_pages(rng):
                 f = [(rng.choice([4, 5, 5, 0]), 4), (0, 3), (0, 11)] + [(rng.choice(modes), 4) for _ in range(48)]
                 tx.add(T.x28_0(mag8, 28, 3, T.pack_bits(f)), "x28")
             for n in rng.sample(range(1, 25), rng.choice([1, 4])):
-                tx.add(T.row(mag8, n, [0x40 + rng.randrange(0x40) for _ in range(40)]), "drcsrow", mag8 * 256 + page)
+                tx.add(T.row(mag8, n, [0x40 + rng.randrange(0x40) for _ in range(40)]), "drcsrow", mag8 * 256 + page, n)
         else:
             page = rng.choice([0x00, 0x05, 0x06, 0x15, 0x16])
             rows = {n: rnd_row(rng) for n in rng.sample(range(1, 26), 3)}
@@ -272,6 +326,167 @@ def system_pages(rng):
             tx.add(T.x28_format1(mag8, 29, rng.choice([0, 4, 1]), cs0=rng.randrange(128), colors=[rng.randrange(4096) for _ in range(16)]), "m29")
     tx.flush()
     return tx
+
+
+DEC_PAGES = [t * 16 + u for t in range(10) for u in range(10)]      # page numbers that are LOPs without a MIP
+
+
+def rnd_text_row(rng):
+    return [rng.choice([0x20, 0x41 + rng.randrange(26), 0x61 + rng.randrange(26), 0x30 + rng.randrange(10)])
+            for _ in range(40)]
+
+
+def parity_faults(rng, tx, pk, rowsel, colpick, p_row=0.6):
+    """-> (faulted copy of pk, list of (pk index, row, column)): at most ONE bit error per selected Level 1 row
+    (so the parity bit does see it), in the column `colpick(pgno, n)` chooses"""
+    f = [(list(b), t) for b, t in pk]
+    hits = []
+    for i, pgno, n in tx.rowidx:
+        if not rowsel(i, pgno, n) or rng.random() >= p_row:
+            continue
+        c = colpick(pgno, n)
+        bit = rng.randrange(7) if rng.random() < 0.9 else 7     # bit 7 = the parity bit itself
+        f[i] = (T.flip(f[i][0], 2 + c, bit), f[i][1])
+        hits.append((i, n, c))
+    return f, hits
+
+
+def pick_col(rng, own_cells, all_cells, all_cols, n):
+    """a column for a parity error in row n: mostly one that X/26 data addresses - in this row on another page or
+    in another row of this page - but that the X/26 data of the page itself does not override in row n"""
+    here = sorted({c for r, c in all_cells if r == n})
+    outside = [c for c in here if (n, c) not in own_cells]
+    elsewhere = [c for c in sorted(all_cols) if (n, c) not in own_cells]
+    k = rng.random()
+    if outside and k < 0.45:
+        return rng.choice(outside)
+    if elsewhere and k < 0.8:
+        return rng.choice(elsewhere)
+    if here and k < 0.92:
+        return rng.choice(here)           # an overridden position: the exception clause
+    return rng.randrange(40)
+
+
+def shape_x26_sequence(rng):
+    """X/26 enhancement pages with different numbers of triplets following each other in ONE magazine; then the
+    same transmission with single parity errors in Level 1 rows at positions addressed by the X/26 data of the
+    pages of that magazine.  -> (tx, clean packets, faulted packets, fault list)"""
+    tx = Tx()
+    m = rng.choice([1, 2, 3, 4, 8])
+    serial = 1 if rng.random() < 0.3 else 0
+    n_pages = rng.choice([2, 3, 3, 4])
+    pages = rng.sample(DEC_PAGES, n_pages)
+    if n_pages > 2 and rng.random() < 0.25:
+        pages[-1] = pages[0]                                   # a retransmission closes the sequence
+    rows_pool = sorted(rng.sample(range(1, 25), rng.choice([3, 5, 8])))
+    cols_pool = sorted(rng.sample(range(40), rng.choice([4, 8, 16])))
+    progs = {}
+    for j, page in enumerate(pages):
+        prog = X.rnd_program(rng, rng.choice([1, 1, 2, 2, 3]), rows_pool, cols_pool, row0=0.15)
+        progs[j] = prog
+        rows = {n: rnd_text_row(rng) for n in set(rows_pool) | set(rng.sample(range(1, 26), rng.choice([0, 2, 6])))}
+        tx.page(rng, m, page, rng.choice([0, 0, 1]), rows, serial=serial, erase=1 if rng.random() < 0.2 else 0,
+                x26=X.chunk13(prog), x26_first=rng.random() < 0.6)
+    tx.flush(serial)
+    all_cells = set().union(*[X.x26_cells(p) for p in progs.values()])
+    all_cols = set().union(*[X.x26_rows_cols(p)[1] for p in progs.values()]) or set(cols_pool)
+    f, hits = parity_faults(rng, tx, tx.pk, lambda i, pg, n: True,
+                            lambda pg, n: pick_col(rng, tx.cells.get(pg, set()), all_cells, all_cols, n))
+    return tx, tx.pk, f, hits
+
+
+def shape_x26_modes(rng):
+    """ONE page whose X/26 packets mix every row-address mode (0x01 full row colour, 0x04 set active position,
+    0x07 address display row 0, modes that keep the active row) with column triplets; transmitted, then
+    retransmitted with fresh text and single parity errors at the addressed rows x addressed columns; in half of
+    the cases one X/26 triplet of the faulted transmission is uncorrectable, too."""
+    tx = Tx()
+    m = rng.choice([1, 2, 3, 4, 8])
+    serial = 1 if rng.random() < 0.3 else 0
+    page, other = rng.sample(DEC_PAGES, 2)
+    subno = rng.choice([0, 0, 1])
+    rows_pool = sorted(rng.sample(range(1, 25), rng.choice([2, 3, 5])))
+    cols_pool = sorted(rng.sample(range(40), rng.choice([4, 6, 10])))
+    prog = X.rnd_program(rng, rng.choice([1, 1, 2]), rows_pool, cols_pool, row0=0.4,
+                         start_with_row=rng.choice([0.8, 0.3]))
+    cells = X.x26_cells(prog)
+    arows, acols = X.x26_rows_cols(prog)
+    rows_sent = sorted((arows - {0}) | set(rows_pool) | set(rng.sample(range(1, 26), 2)))
+    cycles = rng.choice([2, 2, 3])
+    faulty_cycle = rng.randrange(cycles) if rng.random() < 0.3 else rng.randrange(1, cycles)
+    first_of_cycle = []
+    for cyc in range(cycles):
+        first_of_cycle.append(len(tx.pk))
+        rows = {n: rnd_text_row(rng) for n in rows_sent if cyc == 0 or rng.random() < 0.8}
+        tx.page(rng, m, page, subno, rows, serial=serial, x26=X.chunk13(prog) if cyc == 0 or rng.random() < 0.6 else None,
+                x26_first=rng.random() < 0.6)
+        if rng.random() < 0.7:      # another page of the magazine in between (closes `page` in parallel mode too)
+            tx.page(rng, m, other, 0, {n: rnd_text_row(rng) for n in rng.sample(range(1, 25), 2)}, serial=serial)
+    first_of_cycle.append(len(tx.pk))
+    tx.flush(serial)
+    pgno = (m if m else 8) * 256 + page
+    lo, hi = first_of_cycle[faulty_cycle], first_of_cycle[faulty_cycle + 1]
+    # with probability 1/2 one X/26 triplet of that transmission is uncorrectable as well (two bit errors in its 24
+    # bits), mostly a row-address triplet: the enhancement data may get shorter, it must not move to other cells.
+    # The parity errors then prefer the columns of the column triplets that follow the damaged triplet.
+    x26s = [i for i in range(lo, hi) if tx.pk[i][1] == "x26"]
+    damage, follow = None, []
+    if x26s and rng.random() < 0.5:
+        i = rng.choice(x26s)
+        d = x26s.index(i) if len(x26s) == len(X.chunk13(prog)) else 0
+        part = prog[13 * d: 13 * d + 13]
+        rowtr = [j for j, (a, m_, _) in enumerate(part) if a >= 40 and (m_ in X.ROW_SET_MODES or m_ == X.ROW0_MODE)]
+        # prefer a row-address triplet that really moves the active position away from a text row
+        moving = [j for j in rowtr if X.active_row(prog[:13 * d + j]) not in (0, X.active_row(prog[:13 * d + j + 1]))]
+        j = rng.choice(moving) if moving and rng.random() < 0.7 else \
+            rng.choice(rowtr) if rowtr and rng.random() < 0.6 else rng.randrange(max(len(part), 1))
+        for a, m_, _ in part[j + 1:]:
+            if a >= 40 and (m_ in X.ROW_SET_MODES or m_ == X.ROW0_MODE):
+                break
+            if a < 40 and m_ in X.CHAR_MODES:
+                follow.append(a)
+        damage = (i, j)
+
+    def colpick(pg, n):
+        if follow and rng.random() < 0.8:
+            return rng.choice(follow)
+        return pick_col(rng, cells, cells, acols or set(cols_pool), n)
+
+    f, hits = parity_faults(rng, tx, tx.pk, lambda i, pg, n: pg == pgno and lo <= i < hi, colpick, p_row=0.75)
+    if damage:
+        i, j = damage
+        b = f[i][0]
+        for bit in rng.sample(range(24), 2):
+            b = T.flip(b, 3 + 3 * j + bit // 8, bit % 8)
+        f[i] = (b, "x26")
+        hits.append((i, -1, j))
+    return tx, tx.pk, f, hits
+
+
+def shape_interleaved(rng):
+    """two or three magazines transmitted in parallel (C11 = 0), their packets interleaved.
+    -> (merged tx, packets, indices of the page headers)"""
+    mags = rng.sample([1, 2, 3, 4, 5, 8], rng.choice([2, 2, 3]))
+    txs = []
+    for m in mags:
+        t = Tx()
+        pool = rng.sample(DEC_PAGES, 3)
+        for _ in range(rng.choice([2, 3, 4])):
+            rows = {n: rnd_text_row(rng) for n in rng.sample(range(1, 25), rng.choice([2, 4, 6]))}
+            t.page(rng, m, rng.choice(pool), rng.choice([0, 0, 1]), rows, serial=0, erase=1 if rng.random() < 0.2 else 0,
+                   x26=X.chunk13(X.rnd_program(rng, 1)) if rng.random() < 0.2 else None)
+        t.flush(0)
+        txs.append(t)
+    pk = interleave(rng, txs)
+    tx = txs[0]
+    for t in txs[1:]:
+        tx.merge(t)
+    return tx, pk, [i for i, (_, tag) in enumerate(pk) if tag == "hdr"]
+
+
+def twin_contain(tx, clean, faulted, note):
+    d = dumps(tx, full=False)
+    return ["note twin contain " + note] + stream_ops(clean) + d + ["reset"] + stream_ops(faulted) + d
 
 
 def dumps(tx, full=True):
@@ -310,7 +525,7 @@ def stream_ops(pk, handler=True, dropped=None):
 class C03(verif.Spec):
     prop = "C03"
     comp = "ttx"
-    lean_modules = ["ZvbiModel.Props.C03"]
+    lean_modules = ["ZvbiModel.Props.C03", "ZvbiModel.Props.C03X26"]
     harness = "ttx_harness"
     harness_link_lib = True
     timeout_per_case = 8.0
@@ -326,7 +541,8 @@ class C03(verif.Spec):
     open_statements = ["single-error invisibility of the *stored bytes* of MIP rows (stored raw, decoded at page end; the decode is covered)",
                        "bisimulation: raw[0][0..7] (verbatim header Hamming bytes) is never read by later steps (only same_clock does, vacuously: F24)",
                        "refinement of the MRU-list cache abstraction by the C10 cache model (joined through Event.put / Aux.touch)",
-                       "bad_header_refused_full / subpage_number_is_transmitted_full: proved under ttxFixF21 = true (current tree), refuted for the unrepaired code"]
+                       "bad_header_refused_full / subpage_number_is_transmitted_full: proved under ttxFixF21 = true (current tree), refuted for the unrepaired code",
+                       "composition of enh_fresh_after_header + x26_continuity + parity_check_ignores_unused_tail into one statement over a whole page transmission (live part of enh = the 13 k triplets of the k in-order X/26 packets since the header) needs the content of x26Triplets, only its frame is proved"]
 
     def __init__(self):
         self.meta = {}
@@ -347,11 +563,7 @@ class C03(verif.Spec):
                 txs = [gen_tx(rng, small=True, mags=[m]) for m in ms]
                 tx = txs[0]
                 for t in txs[1:]:
-                    tx.sent_pages |= t.sent_pages; tx.mags |= t.mags
-                    for p, r in t.rows.items():
-                        tx.rows.setdefault(p, set()).update(r)
-                    for k_, v_ in t.x26cols.items():
-                        tx.x26cols.setdefault(k_, set()).update(v_)
+                    tx.merge(t)
                 pk = interleave(rng, txs)
             else:
                 tx = system_pages(rng)
@@ -488,18 +700,41 @@ class C03(verif.Spec):
             if rng.random() < 0.2:
                 ops += ["pkt 00", "page x 1", "asm 9", "handler", "frob", "pktd " + "00" * 41]
             cases.append(self.tag(ops, "malformed", None))
+        # 6. X/26 pages of different triplet counts following each other in one magazine; Level 1 parity errors at
+        #    the positions the X/26 data of these pages address (fault-free run ; reset ; run with the errors)
+        for _ in range(24 if quick else 240):
+            tx, pk, f, hits = shape_x26_sequence(rng)
+            if hits:
+                cases.append(self.tag(twin_contain(tx, pk, f, "parity at x26 cells n=%d" % len(hits)), "x26seq", tx))
+        # 7. X/26 packets mixing all row-address modes with column triplets, retransmission with parity errors
+        for _ in range(40 if quick else 400):
+            tx, pk, f, hits = shape_x26_modes(rng)
+            if hits:
+                cases.append(self.tag(twin_contain(tx, pk, f, "parity at x26 rows x columns n=%d" % len(hits)), "x26modes", tx))
+        # 8. interleaved magazines in parallel mode: uncorrectable page number (two bit errors in one of its bytes,
+        #    or in both) at every header of the schedule, one case per header
+        for _ in range(3 if quick else 30):
+            tx, pk, hdrs = shape_interleaved(rng)
+            if quick and len(hdrs) > 9:
+                hdrs = sorted(rng.sample(hdrs, 9))
+            for i in hdrs:
+                f = [(list(b), t) for b, t in pk]
+                k = rng.random()
+                for pos in ([2] if k < 0.4 else [3] if k < 0.8 else [2, 3]):
+                    f[i] = (X.bad_byte(rng, f[i][0], pos), "hdr")
+                cases.append(self.tag(twin_contain(tx, pk, f, "hdr pgno at=%d" % i), "ilvhdr", tx))
         return cases
 
     def tag(self, case, kind, tx):
-        """prepend what the sender knows as comment directives, so that a case file is self-contained"""
-        head = ["note kind " + kind]
-        if tx is not None:
-            head.append("note sent " + " ".join("%x.%x" % k for k in sorted(tx.sent_pages)))
-            head.append("note x26 " + " ".join("%x:%s" % (k, ",".join("%d" % c for c in sorted(tx.x26cols[k])) or "-")
-                                               for k in sorted(tx.x26cols)))
-            for pg in sorted(tx.rows):
-                head.append("note rows %x %s" % (pg, ",".join(sorted(bytes(r).hex() for r in tx.rows[pg]))))
-        return head + case
+        """prepend what the sender knows as `note` ops, so that a case file is self-contained.  All knowledge
+        travels in ONE op (`note tx <digest> <json>`) together with a digest of the other op lines of the case:
+        sender knowledge applies to exactly the stream it was written for.  (The shrinker of lib/verif.py removes
+        op lines; a case without the header of a page, or without half of the knowledge, would otherwise be
+        judged against knowledge that no longer describes it and "fail" on any tree.)"""
+        body = ["note kind " + kind] + list(case)
+        if tx is None:
+            return body
+        return ["note tx %s %s" % (X.stream_digest(body), X.pack_knowledge(tx.knowledge()))] + body
 
     @staticmethod
     def directives(case):
@@ -510,6 +745,15 @@ class C03(verif.Spec):
             w = l.split()
             if len(w) >= 3 and w[1] == "kind":
                 kind = w[2]
+            elif len(w) == 4 and w[1] == "tx":
+                if w[2] != X.stream_digest(case):
+                    return "altered", None, ""      # not the stream this knowledge was written for: no judgement
+                try:
+                    import json
+                    tx = Tx.from_knowledge(json.loads(w[3]))
+                except (ValueError, TypeError, KeyError):
+                    return "altered", None, ""
+            # ---- older multi-line form (corpus files, replays written before the digest existed)
             elif len(w) >= 2 and w[1] == "sent":
                 tx = tx or Tx()
                 tx.sent_pages = {tuple(int(x, 16) for x in k.split(".")) for k in w[2:]}
@@ -559,8 +803,12 @@ class C03(verif.Spec):
         return ev, dumps
 
     def containment(self, tx, ops, outs, maglevel=False):
+        """what is cached / announced is what was transmitted (sender knowledge `tx` against harness output).
+        maglevel: a packet address was destroyed, so a header may have been lost and rows / X/26 packets of the
+        next page of the magazine land in the page in progress: containment per magazine only."""
         if tx is None:
             return None
+        precise = getattr(tx, "precise", False) and not maglevel
         sent_pg = {p for p, _ in tx.sent_pages}
         magrows = {}
         for p, rs in tx.rows.items():
@@ -586,27 +834,55 @@ class C03(verif.Spec):
                 pg = int(m.group(1), 16)
                 m = re.search(r" raw=([0-9a-f.]+)", r)
                 rows = m.group(1).split(".")
-                # a lost header (uncorrectable address) makes the rows of the next page of the magazine
-                # land in the page in progress: then only containment per magazine can be demanded
-                sent = magrows.get(pg >> 8, set()) if maglevel else tx.rows.get(pg, set())
                 for n in range(1, 26):
                     row = bytes.fromhex(rows[n])
                     if any(not T.parity_odd(b) for b in row):
                         return "cached LOP row with a parity error (page %x row %d)" % (pg, n)
-                    if all(b == 0x20 for b in row) or tuple(row) in sent:
+                    if all(b == 0x20 for b in row):
+                        continue
+                    if precise:
+                        # the row must be one of the rows transmitted for this page under this packet number; only
+                        # the cells which X/26 data transmitted for this page overrides in this row are excepted
+                        d = tx.rown.get(pg, {})
+                        sent = d.get(n, set()) | d.get(0, set())
+                        cols = {c for r_, c in tx.cells.get(pg, ()) if r_ == n}
+                    else:
+                        # coarse: any row of the magazine (lost header) / of the page, any X/26 addressed column
+                        sent = magrows.get(pg >> 8, set()) if maglevel else tx.rows.get(pg, set())
+                        cols = set(tx.x26cols.get(pg, ()))
+                        if maglevel:
+                            for p_, c_ in tx.x26cols.items():
+                                if p_ >> 8 == pg >> 8:
+                                    cols = cols | c_
+                    if tuple(row) in sent:
                         continue
                     # positions overridden by X/26 enhancement data are excepted by the property: lop_parity_check
-                    # forces odd parity there, so a damaged byte in such a column can pass the gate
-                    cols = set()
-                    if pg in tx.x26cols:
-                        cols = tx.x26cols[pg]
-                    if maglevel:
-                        for p_, c_ in tx.x26cols.items():
-                            if p_ >> 8 == pg >> 8:
-                                cols = cols | c_
+                    # forces odd parity there, so a damaged byte in such a position can pass the gate
                     if cols and any(all(a == b or i in cols for i, (a, b) in enumerate(zip(row, s))) for s in sent):
                         continue
+                    # say what is wrong: a damaged character, or text that belongs elsewhere
+                    near = min(sent, key=lambda s: sum(a != b for a, b in zip(row, s)), default=None)
+                    if near is not None and sum(a != b for a, b in zip(row, near)) <= 3:
+                        bad = [i for i, (a, b) in enumerate(zip(row, near)) if a != b and i not in cols]
+                        return ("cached LOP row shows a character that was not transmitted, outside the X/26 "
+                                "addressed positions (page %x row %d columns %s)" % (pg, n, ",".join(map(str, bad))))
                     return "cached LOP row that was never transmitted for this page (page %x row %d)" % (pg, n)
+        return None
+
+    def fault_contained(self, clean, faulted):
+        """twin `contain`: fault-free transmission vs. the same transmission with parity errors / uncorrectable
+        headers.  A fault may only take away: a page is stored, or it is not (abandoned) and the cache keeps what it
+        had; what each row shows is judged by `containment`.  So no page NUMBER may be cached in the faulted run
+        that the fault-free run does not cache.  (Not per subpage: storing subpage 0 replaces every cached version
+        of the page, cache.c _vbi_cache_put_page, so an abandoned xxx.0 legitimately leaves an older xxx.1.)"""
+        def cached(ops, outs):
+            for o, r in zip(ops, outs):
+                if o == "cached":
+                    return {w.split(":")[0].split(".")[0] for w in r.split()[1:]}
+            return set()
+        extra = cached(*faulted) - cached(*clean)
+        if extra:
+            return "page cached only in the transmission with errors, not in the error free one (%s)" % sorted(extra)[0]
         return None
 
     def oracle(self, case, out):
@@ -618,7 +894,11 @@ class C03(verif.Spec):
                 return "unexpected event type"
         kind, tx, head = self.directives(case)
         halves = self.split_halves(case, out)
-        if head.startswith("# twin") and len(halves) == 2:
+        if head.startswith("# twin contain") and len(halves) == 2:
+            w = self.fault_contained(halves[0], halves[1])
+            if w:
+                return w
+        elif head.startswith("# twin") and len(halves) == 2:
             mask = " tag=hdr " in head and any((" pos=%d " % p) in head + " " for p in range(2, 10))
             a = self.observable(*halves[0], mask_h8=mask)
             b = self.observable(*halves[1], mask_h8=mask)
